@@ -4,21 +4,16 @@ from .. import common, corpus, irrules
 
 def run(tier):
     ck = common.Check('C04', tier)
-    cfgs = corpus.corpus(tier)
-    res = corpus.run_over(cfgs, 'svlib.rules.ir_alloc', 'analyse_tu')
-    irrules.aggregate(ck, res)
+    from . import parts
+    res_all = parts.run_parts(ck, tier, ir_parts=('ir_alloc', 'ir_steal'),
+                              rule_filter=lambda p, x: p == 'ir_alloc' or x.rule == 'R04.6')
+    res = res_all.get('ir_alloc', [])
     sites = sum(r['res']['sites'] for r in res)
     funs = sum(r['res']['functions'] for r in res)
     ck.floor('allocation sites (function x site, summed over TUs)', sites, 200 if tier == 'quick' else 2000)
     ck.extra['allocation_sites'] = sites
     ck.extra['functions_walked'] = funs
-    ck.extra['paths_explored'] = sum(r['res']['stats']['paths'] for r in res)
-    try:
-        from . import ir_inplace
-        res2 = corpus.run_over(cfgs, 'svlib.rules.ir_inplace', 'analyse_tu')
-        irrules.aggregate(ck, res2)
-    except ImportError:
-        ck.note('R04.3 (no allocation on the in-place edge) is decided under C10 (R10.1)')
+    ck.note('R04.3 (no allocation on the in-place edge) is decided under C10 (R10.1)')
     ck.assumptions += ['Allocator requirements: deallocate/copy/== do not throw',
                        'clang 14 -O0 lowering of try/catch/noexcept (invoke/landingpad/terminate pads)',
                        'summary inlining bound: loop-free callees with <= 10 paths are expanded in place, others are opaque with may-throw/may-write summaries']
@@ -29,4 +24,4 @@ def run(tier):
         'handlers, must either store the pointer and the same count into one container\'s (m_data_ptr, m_capacity) '
         'pair, return/hand the pointer over, or pass it to deallocate with the same allocator object and the same '
         'count; in constructor context a commit does not discharge an unwind exit. Decides the pairing clause per '
-        'operation; does not decide exact-once over whole histories.')
+        'operation; does not decide exact-once over whole histories. R04.5: only blocks obtained on the path, or the entry buffer under an established capacity > inline capacity, are handed to deallocate (never the inline buffer). R04.6: a heap buffer changes owner only together with its allocator or between containers whose allocators compared equal / are always equal.')
